@@ -610,9 +610,40 @@ def _new_display(ex, args, f):
     return Opaque("fmtarg", args[0])
 
 
+@intr("core::fmt::rt::Argument::new_lower_hex", "core::fmt::rt::Argument::<'_>::new_lower_hex")
+def _new_lower_hex(ex, args, f):
+    return Opaque("fmtarg_x", args[0])
+
+
 @intr("Arguments::new", "Arguments::<'_>::new", "std::fmt::Arguments::new", "Arguments::from_str", "Arguments::<'_>::from_str")
 def _args_new(ex, args, f):
     return Opaque("fmtargs", args)
+
+
+def render_int(ex, v, base):
+    """digits of an integer (unsigned, or signed and non-negative on this path): the number of digits is decided by forking, each digit is a term"""
+    e = v.e
+    w = e.size()
+    if v.signed:
+        if ex.decide(e < 0):
+            raise Unsupported("formatting a negative integer")
+    if base == "x":
+        n = 1
+        while n * 4 < w and ex.decide(z3.UGE(e, z3.BitVecVal(1 << (4 * n), w))):
+            n += 1
+        outd = []
+        for k in range(n - 1, -1, -1):
+            nib = z3.Extract(4 * k + 3, 4 * k, e)
+            outd.append(z3.If(z3.ULT(nib, 10), z3.ZeroExt(4, nib) + 0x30, z3.ZeroExt(4, nib) + 0x57))
+        return outd
+    n = 1
+    while 10 ** n < (1 << w) and ex.decide(z3.UGE(e, z3.BitVecVal(10 ** n, w))):
+        n += 1
+    outd = []
+    for k in range(n - 1, -1, -1):
+        dgt = z3.URem(z3.UDiv(e, z3.BitVecVal(10 ** k, w)), z3.BitVecVal(10, w))
+        outd.append(z3.Extract(7, 0, dgt) + 0x30)
+    return outd
 
 
 def render_args(ex, fa):
@@ -638,10 +669,39 @@ def render_args(ex, fa):
         t = tb[i]
         if t == 0:
             break
+        if 0xC0 < t <= 0xC7:
+            # placeholder with options: bit 0 = 4 bytes of flags (fill char in the low 21 bits, bit 24 = zero padding), bit 1 = 2 bytes of width,
+            # bit 2 = 2 bytes of precision (all little-endian).  Supported: integers in lower hex / decimal with zero or space padding to a width.
+            j = i + 1
+            flags, width = 0x20, 0
+            if t & 1:
+                flags = tb[j] | tb[j + 1] << 8 | tb[j + 2] << 16 | tb[j + 3] << 24
+                j += 4
+            if t & 2:
+                width = tb[j] | tb[j + 1] << 8
+                j += 2
+            if t & 4:
+                raise Unsupported("format placeholder with a precision")
+            a = items[ai]
+            ai += 1
+            v = deref_all(ex, a.payload)
+            if not isinstance(v, Int):
+                raise Unsupported("format options on a non-integer argument")
+            digits = render_int(ex, v, "x" if a.tag == "fmtarg_x" else "d")
+            fill = ord("0") if flags & (1 << 24) else (flags & 0x1fffff)
+            if fill > 0x7f:
+                raise Unsupported("non-ASCII fill character")
+            out += [z3.BitVecVal(fill, 8)] * max(0, width - len(digits)) + digits
+            i = j
+            continue
         if t == 0xC0:
             a = items[ai]
             ai += 1
             v = deref_all(ex, a.payload)
+            if isinstance(v, Int) and v.ty != "char" and a.tag in ("fmtarg", "fmtarg_x"):
+                out += render_int(ex, v, "x" if a.tag == "fmtarg_x" else "d")
+                i += 1
+                continue
             if isinstance(v, Int) and v.ty == "char":
                 out.append(z3.Extract(7, 0, v.e))
             elif isinstance(v, Adt) and v.ty not in ("Cow", "String"):
